@@ -35,11 +35,11 @@ def writeCtl (bOpen bClose : Bool) (reason : Nat) : Bits :=
   let ctl := bOpen || bClose
   [ctl] ++ (if ctl then [bOpen, bClose] ++ (if bClose then writeInt reason closeReasonMax else []) else [])
 
-def readCtl : Rd (Bool × Bool × Nat) := do
-  let ctl ← readBit
-  let bOpen ← if ctl then readBit else pure false
-  let bClose ← if ctl then readBit else pure false
-  let reason ← if bClose then readInt closeReasonMax else pure 0
+def readCtl : Rd (Bool × Bool × Nat) :=
+  readBit >>= fun ctl =>
+  (if ctl then readBit else pure false) >>= fun bOpen =>
+  (if ctl then readBit else pure false) >>= fun bClose =>
+  (if bClose then readInt closeReasonMax else pure 0) >>= fun reason =>
   pure (bOpen, bClose, reason)
 
 def writeSeq (reliable : Bool) (chSeq : Int) : Bits :=
@@ -50,14 +50,12 @@ def readSeq (reliable : Bool) : Rd Nat := if reliable then readInt maxChSequence
 def writePartialFlags (partial_ pinit pfinal : Bool) : Bits := if partial_ then [pinit, pfinal] else []
 
 def readPartialFlags (partial_ : Bool) : Rd (Bool × Bool) :=
-  if partial_ then (do let a ← readBit; let b ← readBit; pure (a, b)) else pure (false, false)
+  if partial_ then (readBit >>= fun a => readBit >>= fun b => pure (a, b)) else pure (false, false)
 
 def writeName (has : Bool) (name : Nat) : Bits := if has then [true] ++ writeIntPacked name else []
 
 def readName (has : Bool) : Rd Nat :=
-  if has then (do
-    let hard ← readBit
-    if !hard then Rd.failHere else readIntPacked) else pure 0
+  if has then (readBit >>= fun hard => if !hard then Rd.failHere else readIntPacked) else pure 0
 
 /-- `utcp_bunch_write_header`; `none` when the serializer refuses (close reason out of range). -/
 def encodeBunchHeader (b : Bunch) : Option Bits :=
